@@ -450,6 +450,19 @@ class Interp:
                 (z3.is_bool(t) and bool in want)
         if f is len and isinstance(args[0], SymSet):
             return args[0].size()
+        if f is isinstance and len(args) == 2 and (getattr(type(args[0]), 'unknown_kind', None)
+                                                  or getattr(type(args[0]), 'node_kind', None)):
+            # a stand-in for "any sub-tree" (induction hypothesis) does not know what kind of node it is: code that asks
+            # leaves the proved subset (the contract is then decided on concrete trees only)
+            want = args[1] if isinstance(args[1], tuple) else (args[1],)
+            names = set(getattr(type(args[0]), 'unknown_kind', ()))
+            asked = {getattr(w, '__name__', '') for w in want}
+            node = set(getattr(type(args[0]), 'node_kind', ()))
+            if node and asked >= node:
+                return True                      # declared: an operator node (tuple / list / GeomExpression)
+            if asked & (names | node):
+                raise OutsideSubset(f'the kind of an opaque sub-tree is inspected: isinstance(<{type(args[0]).__name__}>, '
+                                    f'{[getattr(w, "__name__", w) for w in want]})')
         if f in (len, tuple, list, zip, enumerate, reversed, iter, next, range, dict, isinstance, type, id, repr,
                  hasattr, getattr, setattr):
             return self.native(f, args, kw)
